@@ -1,4 +1,6 @@
 """C12 - enum codecs accept exactly the declared names; Parse helpers agree."""
+import os
+
 from vlib import core, enumgen
 from vlib.sexp import Q
 
@@ -68,6 +70,16 @@ def make_cases(ctx, cid, en, flags, mode=None):
                 "sexp": enumgen.case_sexp(cid + "v", "c12v", en, [["target", str(target)], ["strs"] + [Q(s) for s in strs]]),
                 "cmd": "Scan(Value(c)) / Scan(string) on the output of shoot " + " ".join(args)}
     main["vsub"] = vsub
+    iname = enumgen.trim(T, decl[-1][0])
+    main["isub"] = {"id": cid + "i", "en": en, "decl": decl, "flags": flags, "kind": "initorder",
+                    "sexp": enumgen.case_sexp(cid + "i", "c12i", en, [["name", Q(iname)]]),
+                    "cmd": "var x, err = shoot.ParseEnum[%s](%r) at package level in a file sorting before the output of shoot %s" % (T, iname, " ".join(args))}
+
+    def post(b, c, r):
+        # written after the shoot runs (the package does not type-check before the methods exist)
+        with open(os.path.join(b.cdir(c), "0init.go"), "w") as f:
+            f.write(enumgen.init_file(T, iname))
+    main["post"] = post
     return main, sub
 
 
@@ -98,6 +110,7 @@ def run_cases(ctx, pairs, name="mod"):
         im = {"exit": str(rc)}
         sim = {}
         vim = {}
+        iim = {}
         main["detail"] = {"stderr": r["runs"][-1]["stderr"][-400:], "compile": r["compile"], "generated": rel, "probes": main["probes"]}
         if rc == 0 and not rel:
             im["file"] = "none"
@@ -118,6 +131,8 @@ def run_cases(ctx, pairs, name="mod"):
                         sim[k[2:]] = v
                     elif k.startswith("V/"):
                         vim[k[2:]] = v
+                    elif k.startswith("I/"):
+                        iim[k[2:]] = v
                     else:
                         im[k] = v
         impl[main["id"]] = im
@@ -125,7 +140,8 @@ def run_cases(ctx, pairs, name="mod"):
             impl[sub["id"]] = sim
         if main.get("vsub"):
             impl[main["vsub"]["id"]] = vim
-    cases = [c for p in pairs for c in list(p) + [p[0].get("vsub")] if c]
+        impl[main["isub"]["id"]] = iim
+    cases = [c for p in pairs for c in list(p) + [p[0].get("vsub"), p[0].get("isub")] if c]
     model = core.model_run(ctx, [c["sexp"] for c in cases])
     return cases, impl, model
 
@@ -169,6 +185,8 @@ def run(ctx, obl):
                 "shoot.ParseEnum/TryParseEnum/IsEnum are executed on: every declared (trimmed) name, lower/upper/swapped case variants, constant names "
                 "with the type prefix, decimal strings of declared values, empty, blanks, near misses, a \\u-escaped JSON spelling, non-string JSON "
                 "(null, numbers, bools, arrays, objects), non-[]byte SQL values (string, int64, nil, float64, bool, time.Time, the enum itself), with a "
+                "decoder inputs include LISTS of declared names (\"A, B\", \"A,B\", \"A , B\", \"A|B\", \"A B\", three names), rejected like any undeclared string; "
+                "after the whole history of decoder calls Values/Strings/ValueMap/StringMap are observed again (C04's agreement, `*2` keys); "
                 "preset non-zero undeclared target; every codec is exercised as a HISTORY in one process: encode and round-trip, overwrite in place every []byte the "
                 "encoders handed out (MarshalJSON, json.Marshal, MarshalText, Value), then encode and round-trip again (`*.enc2`, `*.rt2`: same expectation); IsEnum[T, int64/uint64] on a window of integers (min-3..max+3, gaps, type min/max) and, as a "
                 "separate case, IsEnum[T, TV] for all 10 integer types TV on declared values, the integers that wrap onto them in T, their "
